@@ -8,8 +8,11 @@ M1 = "theorems about the hand-written executable Coq model M1, tied to /repo on 
 CLAIMS = {
  "C01": dict(tech="Coq theorems on model M1 + differential correspondence + rebuild/reopen oracle", text=M1 + ". Proved so far: the rebuild depends on the tape only and the tape it reads is a stable prefix; the full equivalence statement is kept as C01_full_statement and decided on every run by the rebuild/reopen oracle over generated histories (partial proof).", ref="3 C01"),
  "C02": dict(tech="Coq theorems on model M1 + differential correspondence + reference-filesystem oracle (afero OsFs)", text=M1 + ". Proved so far: read-only refusal leaves the state untouched; the comparison with the reference filesystem is run side by side on the implementation (partial proof).", ref="3 C02"),
- "C04": dict(tech="Coq proof of the block arithmetic and position stability + differential correspondence + tar-scan/Fetch/Query oracle", text=M1 + ". Proved for every record size >= 1 and every offset: block < record size, seek formula inverts the position, uniqueness, dead branches; positions keep designating the same record under every later history.", ref="3 C04"),
+ "C04": dict(tech="Coq proof of the block arithmetic and position stability + differential correspondence + tar-scan/Fetch/Query oracle", text=M1 + ". Proved for every record size >= 1 and every offset: block < record size, seek formula inverts the position, uniqueness, dead branches; and by induction over ALL histories (any calls, any outcomes): every row's content position and last-known position are record starts on the tape with block < record size, last-known >= content position, and positions keep designating the same record under every later history. That the designated record is the one carrying the entry's current content is decided by the tar-scan/Fetch oracle.", ref="3 C04"),
  "C05": dict(tech="Coq proof by induction over histories (append-only) + differential correspondence + byte-prefix/tar-scan oracle", text=M1 + ". Proved: for every call and every history the previous tape is a prefix of the new one (step_extends, final_extends).", ref="3 C05"),
+ "C06": dict(tech="Coq proof of the cut-tape layout theorem (for every tape and every cut length) + every-byte prefix sweep as correspondence + oracle", text=M1 + ". Proved for every tape and cut: the applied headers are a prefix of the records, every applied record but the last is wholly present, an error is reported iff the last one's data is cut, untouched records fetch exactly; the cut-to-outcome table is tied by sweeping cut lengths over generated tapes.", ref="3 C06"),
+ "C07": dict(tech="model of replay-into-populated-index evaluated in Coq against the implementation + replay oracle; statement proved on a witness tape for every prefix length", text=M1 + ". The general convergence statement is kept as C07_full_statement; decided on every run by replaying generated tapes into prefix indexes on the implementation (partial proof).", ref="3 C07"),
+ "C14": dict(tech="handle state-machine model + byte-array reference in Coq, correspondence over handle-call sequences, side-by-side reference run (afero OsFs)", text=M1 + ". Model/File.v (hstep) is tied by handle-call sequences; the reference comparison runs on the implementation; the refinement theorem (handle refines FileSpec inside the envelope) is being proved; deviations outside the envelope are listed known findings.", ref="3 C14"),
  "C10": dict(tech="verified monitor check over the regenerated control skeleton (lock discipline on every path) + fault enumeration on the implementation", text=M2 + ": every path of every exported call (every error branch = every fault point, any number of loop iterations) ends with no lock held; known finding: the streaming read goroutine.", ref="3 C10"),
  "C12": dict(tech="Coq proof of the subtree selection (LIKE implied by exact prefix, children characterisation) + differential correspondence + subtree oracle", text=M1 + ". Proved for all byte strings: the children selected are exactly the live rows under <dir>/, the LIKE pre-filter loses none; the raw LIKE is refuted by witness.", ref="3 C12"),
  "C13": dict(tech="Coq proof of the limit law + differential correspondence + walk/Stat/limit oracle", text=M1 + ". Proved: a count-limited listing never exceeds the count; reachability, parent and lookup agreement are decided by the oracle on every run (partial proof).", ref="3 C13"),
